@@ -1,7 +1,598 @@
 import ShVerif.Model.L3Glob
 /-
   L3 — helper lemmas shared by C17 and C18.
+  Part A: denotational semantics of `Regex` and correctness of the derivative matcher.
 -/
 namespace ShVerif.L3
+
+/-! ## Part A — `rmatch` decides the language of a regular expression -/
+
+/-- The language of a regular expression (`nc`: case folding on). -/
+inductive Matches (nc : Bool) : Regex → Str → Prop
+  | eps : Matches nc .eps []
+  | chr {c x} : chEq nc c x = true → Matches nc (.chr c) [x]
+  | any {x} : Matches nc .any [x]
+  | set {neg items x} : setMem nc neg items x = true → Matches nc (.set neg items) [x]
+  | cat {a b s t} : Matches nc a s → Matches nc b t → Matches nc (.cat a b) (s ++ t)
+  | altL {a b s} : Matches nc a s → Matches nc (.alt a b) s
+  | altR {a b s} : Matches nc b s → Matches nc (.alt a b) s
+  | grp {a s} : Matches nc a s → Matches nc (.grp a) s
+  | starNil {a} : Matches nc (.star a) []
+  | starCons {a s t} : Matches nc a s → Matches nc (.star a) t → Matches nc (.star a) (s ++ t)
+  | plus {a s t} : Matches nc a s → Matches nc (.star a) t → Matches nc (.plus a) (s ++ t)
+  | optNil {a} : Matches nc (.opt a) []
+  | optSome {a s} : Matches nc a s → Matches nc (.opt a) s
+
+theorem nullable_iff (nc : Bool) (r : Regex) : nullable r = true ↔ Matches nc r [] := by
+  induction r with
+  | void => simp [nullable]; intro h; cases h
+  | eps => simp [nullable]; exact .eps
+  | chr c => simp [nullable]; intro h; cases h
+  | any => simp [nullable]; intro h; cases h
+  | set n i => simp [nullable]; intro h; cases h
+  | cat a b iha ihb =>
+    simp only [nullable, Bool.and_eq_true, iha, ihb]
+    constructor
+    · rintro ⟨h1, h2⟩; exact .cat (s := []) (t := []) h1 h2
+    · intro h
+      generalize hs : ([] : Str) = s at h
+      cases h with
+      | cat h1 h2 =>
+        rename_i s1 t1
+        have := List.append_eq_nil_iff.mp hs.symm
+        obtain ⟨rfl, rfl⟩ := this
+        exact ⟨h1, h2⟩
+  | alt a b iha ihb =>
+    simp only [nullable, Bool.or_eq_true, iha, ihb]
+    constructor
+    · rintro (h | h); exact .altL h; exact .altR h
+    · intro h; cases h with
+      | altL h => exact .inl h
+      | altR h => exact .inr h
+  | grp a iha =>
+    simp only [nullable, iha]
+    constructor
+    · intro h; exact .grp h
+    · intro h; cases h with | grp h => exact h
+  | ugrp a _ => simp [nullable]; intro h; cases h
+  | star a _ => simp [nullable]; exact .starNil
+  | plus a iha =>
+    simp only [nullable, iha]
+    constructor
+    · intro h; exact .plus (s := []) (t := []) h .starNil
+    · intro h
+      generalize hs : ([] : Str) = s at h
+      cases h with
+      | plus h1 h2 =>
+        have := List.append_eq_nil_iff.mp hs.symm
+        obtain ⟨rfl, rfl⟩ := this
+        exact h1
+  | opt a _ => simp [nullable]; exact .optNil
+
+/-- A non-empty match of `star a` starts with a non-empty match of `a`. -/
+theorem star_cons_split {nc a x s} (h : Matches nc (.star a) (x :: s)) :
+    ∃ s1 s2, s = s1 ++ s2 ∧ Matches nc a (x :: s1) ∧ Matches nc (.star a) s2 := by
+  generalize hr : Regex.star a = r at h
+  generalize hxs : x :: s = w at h
+  induction h generalizing x s with
+  | starNil => cases hxs
+  | @starCons a' s' t' h1 h2 _ ih2 =>
+    cases hr
+    cases s' with
+    | nil => simp at hxs; exact ih2 rfl hxs
+    | cons y s'' =>
+      simp at hxs
+      obtain ⟨rfl, rfl⟩ := hxs
+      exact ⟨s'', t', rfl, h1, h2⟩
+  | _ => cases hr
+
+theorem deriv_iff (nc : Bool) (x : Rune) (r : Regex) (s : Str) :
+    Matches nc (deriv nc x r) s ↔ Matches nc r (x :: s) := by
+  induction r generalizing s with
+  | void => simp only [deriv]; constructor <;> (intro h; cases h)
+  | eps => simp only [deriv]; constructor <;> (intro h; cases h)
+  | chr c =>
+    simp only [deriv]
+    constructor
+    · intro h
+      split at h
+      · cases h; exact .chr ‹_›
+      · cases h
+    · intro h
+      cases h with
+      | chr hc => simp [hc]; exact .eps
+  | any =>
+    simp only [deriv]
+    constructor
+    · intro h; cases h; exact .any
+    · intro h; cases h; exact .eps
+  | set n i =>
+    simp only [deriv]
+    constructor
+    · intro h
+      split at h
+      · cases h; exact .set ‹_›
+      · cases h
+    · intro h
+      cases h with
+      | set hc => simp [hc]; exact .eps
+  | cat a b iha ihb =>
+    simp only [deriv]
+    constructor
+    · intro h
+      split at h
+      · rename_i hn
+        cases h with
+        | altL h =>
+          cases h with
+          | cat h1 h2 => exact .cat (s := x :: _) ((iha _).mp h1) h2
+        | altR h => exact .cat (s := []) ((nullable_iff nc a).mp hn) ((ihb _).mp h)
+      · cases h with
+        | cat h1 h2 => exact .cat (s := x :: _) ((iha _).mp h1) h2
+    · intro h
+      generalize hxs : x :: s = w at h
+      cases h with
+      | cat h1 h2 =>
+        rename_i s1 t1
+        cases s1 with
+        | nil =>
+          simp at hxs; subst hxs
+          have hn := (nullable_iff nc a).mpr h1
+          simp only [hn, if_true]
+          exact .altR ((ihb _).mpr h2)
+        | cons y s1' =>
+          simp at hxs; obtain ⟨rfl, rfl⟩ := hxs
+          split
+          · exact .altL (.cat ((iha _).mpr h1) h2)
+          · exact .cat ((iha _).mpr h1) h2
+  | alt a b iha ihb =>
+    simp only [deriv]
+    constructor
+    · intro h; cases h with
+      | altL h => exact .altL ((iha _).mp h)
+      | altR h => exact .altR ((ihb _).mp h)
+    · intro h; cases h with
+      | altL h => exact .altL ((iha _).mpr h)
+      | altR h => exact .altR ((ihb _).mpr h)
+  | grp a iha =>
+    simp only [deriv]
+    constructor
+    · intro h; exact .grp ((iha _).mp h)
+    · intro h; cases h with | grp h => exact (iha _).mpr h
+  | ugrp a _ => simp only [deriv]; constructor <;> (intro h; cases h)
+  | star a iha =>
+    simp only [deriv]
+    constructor
+    · intro h; cases h with
+      | cat h1 h2 => exact .starCons (s := x :: _) ((iha _).mp h1) h2
+    · intro h
+      obtain ⟨s1, s2, rfl, h1, h2⟩ := star_cons_split h
+      exact .cat ((iha _).mpr h1) h2
+  | plus a iha =>
+    simp only [deriv]
+    constructor
+    · intro h; cases h with
+      | cat h1 h2 => exact .plus (s := x :: _) ((iha _).mp h1) h2
+    · intro h
+      generalize hxs : x :: s = w at h
+      cases h with
+      | plus h1 h2 =>
+        rename_i s1 t1
+        cases s1 with
+        | nil =>
+          simp at hxs; subst hxs
+          obtain ⟨u1, u2, rfl, g1, g2⟩ := star_cons_split h2
+          exact .cat ((iha _).mpr g1) g2
+        | cons y s1' =>
+          simp at hxs; obtain ⟨rfl, rfl⟩ := hxs
+          exact .cat ((iha _).mpr h1) h2
+  | opt a iha =>
+    simp only [deriv]
+    constructor
+    · intro h; exact .optSome ((iha _).mp h)
+    · intro h
+      generalize hxs : x :: s = w at h
+      cases h with
+      | optNil => cases hxs
+      | optSome h => subst hxs; exact (iha _).mpr h
+
+theorem derivs_iff (nc : Bool) (s t : Str) (r : Regex) :
+    Matches nc (derivs nc s r) t ↔ Matches nc r (s ++ t) := by
+  induction s generalizing r with
+  | nil => simp [derivs]
+  | cons x s ih => simp only [derivs, ih, deriv_iff, List.cons_append]
+
+/-- The derivative matcher decides the language. -/
+theorem rmatch_iff (nc : Bool) (r : Regex) (s : Str) : rmatch nc r s = true ↔ Matches nc r s := by
+  unfold rmatch
+  rw [nullable_iff nc, derivs_iff, List.append_nil]
+
+/-! ## Part B — declarative semantics of `Glob` and correctness of the backtracking matcher -/
+
+/-- What `*` may consume: characters a wildcard may consume, the first one in context `b`. -/
+def StarDen (m : Mode) : Bool → Str → Prop
+  | _, [] => True
+  | b, x :: s => wildOk m b x = true ∧ StarDen m false s
+
+/-- What `**` may consume: anything without a path component that begins with a dot. -/
+def GstarDen (m : Mode) : Bool → Str → Prop
+  | _, [] => True
+  | b, x :: s => (!(!m.dotglob && b && x == cDot)) = true ∧ GstarDen m (startAfter m x) s
+
+/-- Iteration of a context-dependent language, every round non-empty. -/
+inductive IterDen (m : Mode) (R : Bool → Str → Prop) : Bool → Str → Prop
+  | nil {b} : IterDen m R b []
+  | cons {b s1 s2} : s1 ≠ [] → R b s1 → IterDen m R (ctxAfter m b s1) s2 → IterDen m R b (s1 ++ s2)
+
+/-- What `!(…)` may consume at all: one path component's worth, no leading dot. -/
+def negOk (m : Mode) (b : Bool) (s1 : Str) : Bool :=
+  s1.all (wildOk m false) && (match s1 with
+                              | x :: _ => wildOk m b x
+                              | [] => true)
+
+/-- The language of a parsed pattern, given whether we are at the start of a path component. -/
+def GDen (m : Mode) : Glob → Bool → Str → Prop
+  | .eps, _, s => s = []
+  | .lit c, _, s => ∃ x, s = [x] ∧ chEq m.nocase c x = true
+  | .any, b, s => ∃ x, s = [x] ∧ wildOk m b x = true
+  | .star, b, s => StarDen m b s
+  | .globstar false, b, s => GstarDen m b s
+  | .globstar true, b, s => s = [] ∨ ∃ w, s = w ++ [cSlash] ∧ GstarDen m b w
+  | .bracket neg items, b, s =>
+    ∃ x, s = [x] ∧ wildOk m b x = true ∧ bracketMem m.nocase neg items x = true
+  | .seq g1 g2, b, s => ∃ s1 s2, s = s1 ++ s2 ∧ GDen m g1 b s1 ∧ GDen m g2 (ctxAfter m b s1) s2
+  | .alt g1 g2, b, s => GDen m g1 b s ∨ GDen m g2 b s
+  | .ext op g, b, s =>
+    if op = cAt then GDen m g b s
+    else if op = cQuest then s = [] ∨ GDen m g b s
+    else if op = cStar then IterDen m (GDen m g) b s
+    else if op = cPlus then
+      ∃ s1 s2, s = s1 ++ s2 ∧ GDen m g b s1 ∧ IterDen m (GDen m g) (ctxAfter m b s1) s2
+    else negOk m b s = true ∧ ¬ GDen m g b s
+
+theorem ctxAfter_nil (m : Mode) (b : Bool) : ctxAfter m b [] = b := rfl
+
+theorem ctxAfter_append (m : Mode) (b : Bool) (s1 s2 : Str) :
+    ctxAfter m (ctxAfter m b s1) s2 = ctxAfter m b (s1 ++ s2) := by
+  unfold ctxAfter
+  cases h2 : s2.getLast? with
+  | none =>
+    have : s2 = [] := List.getLast?_eq_none_iff.mp h2
+    subst this
+    simp
+  | some x =>
+    have : (s1 ++ s2).getLast? = some x := by
+      rw [List.getLast?_append, h2]; rfl
+    simp [this]
+
+theorem ctxAfter_singleton (m : Mode) (b : Bool) (x : Rune) : ctxAfter m b [x] = startAfter m x := rfl
+
+theorem ctxAfter_cons (m : Mode) (b : Bool) (x : Rune) (s : Str) :
+    ctxAfter m b (x :: s) = ctxAfter m (startAfter m x) s := by
+  have := ctxAfter_append m b [x] s
+  simpa [ctxAfter_singleton] using this.symm
+
+theorem wildOk_not_start {m b x} (h : wildOk m b x = true) : startAfter m x = false := by
+  unfold wildOk at h
+  unfold startAfter
+  cases hf : m.filenames <;> cases hx : (x == cSlash) <;> simp_all
+
+theorem StarDen_ctx {m b s} (h : StarDen m b s) (hne : s ≠ []) : ctxAfter m b s = false := by
+  induction s generalizing b with
+  | nil => exact absurd rfl hne
+  | cons x s ih =>
+    obtain ⟨h1, h2⟩ := h
+    rw [ctxAfter_cons, wildOk_not_start h1]
+    cases s with
+    | nil => rfl
+    | cons y s' => exact ih h2 (by simp)
+
+theorem starK_iff (m : Mode) (k : Bool → Str → Bool) (b : Bool) (s : Str) :
+    starK m k b s = true ↔
+      ∃ s1 s2, s = s1 ++ s2 ∧ StarDen m b s1 ∧ k (ctxAfter m b s1) s2 = true := by
+  induction s generalizing b with
+  | nil =>
+    simp only [starK]
+    constructor
+    · intro h; exact ⟨[], [], rfl, trivial, h⟩
+    · rintro ⟨s1, s2, h, _, hk⟩
+      have := List.append_eq_nil_iff.mp h.symm
+      obtain ⟨rfl, rfl⟩ := this
+      exact hk
+  | cons x s ih =>
+    simp only [starK, Bool.or_eq_true, Bool.and_eq_true, ih]
+    constructor
+    · rintro (h | ⟨hw, s1, s2, rfl, hd, hk⟩)
+      · exact ⟨[], x :: s, rfl, trivial, h⟩
+      · refine ⟨x :: s1, s2, rfl, ⟨hw, hd⟩, ?_⟩
+        rw [ctxAfter_cons, wildOk_not_start hw]; exact hk
+    · rintro ⟨s1, s2, h, hd, hk⟩
+      cases s1 with
+      | nil => left; simp at h; subst h; exact hk
+      | cons y s1' =>
+        simp at h; obtain ⟨rfl, rfl⟩ := h
+        right
+        obtain ⟨hw, hd'⟩ := hd
+        refine ⟨hw, s1', s2, rfl, hd', ?_⟩
+        rw [ctxAfter_cons, wildOk_not_start hw] at hk; exact hk
+
+theorem gstarK_iff (m : Mode) (k : Bool → Str → Bool) (b : Bool) (s : Str) :
+    gstarK m k b s = true ↔
+      ∃ s1 s2, s = s1 ++ s2 ∧ GstarDen m b s1 ∧ k (ctxAfter m b s1) s2 = true := by
+  induction s generalizing b with
+  | nil =>
+    simp only [gstarK]
+    constructor
+    · intro h; exact ⟨[], [], rfl, trivial, h⟩
+    · rintro ⟨s1, s2, h, _, hk⟩
+      have := List.append_eq_nil_iff.mp h.symm
+      obtain ⟨rfl, rfl⟩ := this
+      exact hk
+  | cons x s ih =>
+    simp only [gstarK, Bool.or_eq_true, Bool.and_eq_true, ih]
+    constructor
+    · rintro (h | ⟨hw, s1, s2, rfl, hd, hk⟩)
+      · exact ⟨[], x :: s, rfl, trivial, h⟩
+      · refine ⟨x :: s1, s2, rfl, ⟨hw, hd⟩, ?_⟩
+        rw [ctxAfter_cons]; exact hk
+    · rintro ⟨s1, s2, h, hd, hk⟩
+      cases s1 with
+      | nil => left; simp at h; subst h; exact hk
+      | cons y s1' =>
+        simp at h; obtain ⟨rfl, rfl⟩ := h
+        right
+        obtain ⟨hw, hd'⟩ := hd
+        refine ⟨hw, s1', s2, rfl, hd', ?_⟩
+        rw [ctxAfter_cons] at hk; exact hk
+
+theorem splits_mem (s a c : Str) : (a, c) ∈ splits s ↔ a ++ c = s := by
+  induction s generalizing a with
+  | nil =>
+    simp only [splits, List.mem_singleton, Prod.mk.injEq]
+    constructor
+    · rintro ⟨rfl, rfl⟩; rfl
+    · intro h; exact List.append_eq_nil_iff.mp h
+  | cons x s ih =>
+    simp only [splits, List.mem_cons, List.mem_map, Prod.mk.injEq, Prod.exists]
+    constructor
+    · rintro (⟨rfl, rfl⟩ | ⟨a', c', hm, rfl, rfl⟩)
+      · rfl
+      · simp [(ih a').mp hm]
+    · intro h
+      cases a with
+      | nil => left; exact ⟨rfl, by simpa using h⟩
+      | cons y a' =>
+        simp at h; obtain ⟨rfl, h⟩ := h
+        right; exact ⟨a', c, (ih a').mpr h, rfl, rfl⟩
+
+/-- Correctness of the Kleene iteration, for any step function that is correct for `R`. -/
+theorem iterK_iff (m : Mode) (R : Bool → Str → Prop)
+    (step : Bool → Str → (Bool → Str → Bool) → Bool)
+    (hstep : ∀ b s k, step b s k = true ↔
+      ∃ s1 s2, s = s1 ++ s2 ∧ R b s1 ∧ k (ctxAfter m b s1) s2 = true)
+    (n : Nat) (b : Bool) (s : Str) (k : Bool → Str → Bool) (hn : s.length ≤ n) :
+    iterK step n b s k = true ↔
+      ∃ s1 s2, s = s1 ++ s2 ∧ IterDen m R b s1 ∧ k (ctxAfter m b s1) s2 = true := by
+  induction n generalizing b s with
+  | zero =>
+    have : s = [] := List.length_eq_zero_iff.mp (Nat.le_zero.mp hn)
+    subst this
+    simp only [iterK]
+    constructor
+    · intro h; exact ⟨[], [], rfl, .nil, h⟩
+    · rintro ⟨s1, s2, h, _, hk⟩
+      have := List.append_eq_nil_iff.mp h.symm
+      obtain ⟨rfl, rfl⟩ := this
+      exact hk
+  | succ n ih =>
+    simp only [iterK, Bool.or_eq_true, hstep, Bool.and_eq_true, decide_eq_true_eq]
+    constructor
+    · rintro (h | ⟨a, c, rfl, hR, hlt, hit⟩)
+      · exact ⟨[], s, rfl, .nil, h⟩
+      · have hane : a ≠ [] := by
+          intro h0; subst h0; simp at hlt
+        have hc : c.length ≤ n := by
+          simp at hlt hn; omega
+        obtain ⟨s1, s2, rfl, hI, hk⟩ := (ih _ c hc).mp hit
+        refine ⟨a ++ s1, s2, by simp, .cons hane hR hI, ?_⟩
+        rw [← ctxAfter_append]; exact hk
+    · rintro ⟨s1, s2, rfl, hI, hk⟩
+      cases hI with
+      | nil => left; exact hk
+      | @cons _ a c hane hR hI' =>
+        right
+        refine ⟨a, c ++ s2, by simp, hR, ?_, ?_⟩
+        · cases a with
+          | nil => exact absurd rfl hane
+          | cons y a' => simp; omega
+        · have hc : (c ++ s2).length ≤ n := by
+            cases a with
+            | nil => exact absurd rfl hane
+            | cons y a' => simp at hn ⊢; omega
+          refine (ih _ _ hc).mpr ⟨c, s2, rfl, hI', ?_⟩
+          rw [ctxAfter_append]; exact hk
+
+/-- The backtracking matcher computes the declarative semantics. -/
+theorem gmatch_iff (m : Mode) (g : Glob) : ∀ (b : Bool) (s : Str) (k : Bool → Str → Bool),
+    gmatch m g b s k = true ↔
+      ∃ s1 s2, s = s1 ++ s2 ∧ GDen m g b s1 ∧ k (ctxAfter m b s1) s2 = true := by
+  induction g with
+  | eps =>
+    intro b s k
+    simp only [gmatch, GDen]
+    constructor
+    · intro h; exact ⟨[], s, rfl, rfl, h⟩
+    · rintro ⟨s1, s2, rfl, rfl, hk⟩; exact hk
+  | lit c =>
+    intro b s k
+    simp only [GDen]
+    cases s with
+    | nil =>
+      simp only [gmatch]
+      constructor
+      · intro h; cases h
+      · rintro ⟨s1, s2, h, ⟨x, rfl, _⟩, _⟩; simp at h
+    | cons x s' =>
+      simp only [gmatch, Bool.and_eq_true]
+      constructor
+      · rintro ⟨hc, hk⟩; exact ⟨[x], s', rfl, ⟨x, rfl, hc⟩, hk⟩
+      · rintro ⟨s1, s2, h, ⟨y, rfl, hc⟩, hk⟩
+        simp at h; obtain ⟨rfl, rfl⟩ := h
+        exact ⟨hc, hk⟩
+  | any =>
+    intro b s k
+    simp only [GDen]
+    cases s with
+    | nil =>
+      simp only [gmatch]
+      constructor
+      · intro h; cases h
+      · rintro ⟨s1, s2, h, ⟨x, rfl, _⟩, _⟩; simp at h
+    | cons x s' =>
+      simp only [gmatch, Bool.and_eq_true]
+      constructor
+      · rintro ⟨hc, hk⟩
+        refine ⟨[x], s', rfl, ⟨x, rfl, hc⟩, ?_⟩
+        rw [ctxAfter_singleton, wildOk_not_start hc]; exact hk
+      · rintro ⟨s1, s2, h, ⟨y, rfl, hc⟩, hk⟩
+        simp at h; obtain ⟨rfl, rfl⟩ := h
+        rw [ctxAfter_singleton, wildOk_not_start hc] at hk
+        exact ⟨hc, hk⟩
+  | star =>
+    intro b s k
+    simp only [gmatch, GDen]; exact starK_iff m k b s
+  | globstar sl =>
+    intro b s k
+    cases sl with
+    | false => simp only [gmatch, GDen]; exact gstarK_iff m k b s
+    | true =>
+      simp only [gmatch, GDen, Bool.or_eq_true, gstarK_iff]
+      constructor
+      · rintro (h | ⟨w, r, rfl, hw, hk⟩)
+        · exact ⟨[], s, rfl, .inl rfl, h⟩
+        · cases r with
+          | nil => simp at hk
+          | cons y r' =>
+            simp only [Bool.and_eq_true, beq_iff_eq] at hk
+            obtain ⟨rfl, hk⟩ := hk
+            refine ⟨w ++ [cSlash], r', by simp, .inr ⟨w, rfl, hw⟩, ?_⟩
+            rw [← ctxAfter_append, ctxAfter_singleton]; exact hk
+      · rintro ⟨s1, s2, rfl, (rfl | ⟨w, rfl, hw⟩), hk⟩
+        · left; exact hk
+        · right
+          refine ⟨w, cSlash :: s2, by simp, hw, ?_⟩
+          rw [← ctxAfter_append, ctxAfter_singleton] at hk
+          simp [hk]
+  | bracket neg items =>
+    intro b s k
+    simp only [GDen]
+    cases s with
+    | nil =>
+      simp only [gmatch]
+      constructor
+      · intro h; cases h
+      · rintro ⟨s1, s2, h, ⟨x, rfl, _⟩, _⟩; simp at h
+    | cons x s' =>
+      simp only [gmatch, Bool.and_eq_true]
+      constructor
+      · rintro ⟨⟨hc, hm⟩, hk⟩
+        refine ⟨[x], s', rfl, ⟨x, rfl, hc, hm⟩, ?_⟩
+        rw [ctxAfter_singleton, wildOk_not_start hc]; exact hk
+      · rintro ⟨s1, s2, h, ⟨y, rfl, hc, hm⟩, hk⟩
+        simp at h; obtain ⟨rfl, rfl⟩ := h
+        rw [ctxAfter_singleton, wildOk_not_start hc] at hk
+        exact ⟨⟨hc, hm⟩, hk⟩
+  | seq g1 g2 ih1 ih2 =>
+    intro b s k
+    simp only [gmatch, GDen, ih1, ih2]
+    constructor
+    · rintro ⟨a, r, rfl, ha, c, d, rfl, hc, hk⟩
+      refine ⟨a ++ c, d, by simp, ⟨a, c, rfl, ha, hc⟩, ?_⟩
+      rw [← ctxAfter_append]; exact hk
+    · rintro ⟨s1, s2, rfl, ⟨a, c, rfl, ha, hc⟩, hk⟩
+      refine ⟨a, c ++ s2, by simp, ha, c, s2, rfl, hc, ?_⟩
+      rw [ctxAfter_append]; exact hk
+  | alt g1 g2 ih1 ih2 =>
+    intro b s k
+    simp only [gmatch, GDen, Bool.or_eq_true, ih1, ih2]
+    constructor
+    · rintro (⟨a, r, rfl, ha, hk⟩ | ⟨a, r, rfl, ha, hk⟩)
+      · exact ⟨a, r, rfl, .inl ha, hk⟩
+      · exact ⟨a, r, rfl, .inr ha, hk⟩
+    · rintro ⟨a, r, rfl, (ha | ha), hk⟩
+      · exact .inl ⟨a, r, rfl, ha, hk⟩
+      · exact .inr ⟨a, r, rfl, ha, hk⟩
+  | ext op g ih =>
+    intro b s k
+    simp only [gmatch, GDen]
+    by_cases h1 : op = cAt
+    · simp only [h1, if_true]; exact ih b s k
+    · simp only [h1, if_false]
+      by_cases h2 : op = cQuest
+      · simp only [h2, if_true, Bool.or_eq_true, ih]
+        constructor
+        · rintro (h | ⟨a, r, rfl, ha, hk⟩)
+          · exact ⟨[], s, rfl, .inl rfl, h⟩
+          · exact ⟨a, r, rfl, .inr ha, hk⟩
+        · rintro ⟨a, r, rfl, (rfl | ha), hk⟩
+          · exact .inl hk
+          · exact .inr ⟨a, r, rfl, ha, hk⟩
+      · simp only [h2, if_false]
+        by_cases h3 : op = cStar
+        · simp only [h3, if_true]
+          exact iterK_iff m (GDen m g) (gmatch m g) ih s.length b s k (Nat.le_refl _)
+        · simp only [h3, if_false]
+          by_cases h4 : op = cPlus
+          · simp only [h4, if_true, ih]
+            constructor
+            · rintro ⟨a, r, rfl, ha, hit⟩
+              obtain ⟨c, d, rfl, hI, hk⟩ :=
+                (iterK_iff m (GDen m g) (gmatch m g) ih r.length _ r k (Nat.le_refl _)).mp hit
+              refine ⟨a ++ c, d, by simp, ⟨a, c, rfl, ha, hI⟩, ?_⟩
+              rw [← ctxAfter_append]; exact hk
+            · rintro ⟨s1, s2, rfl, ⟨a, c, rfl, ha, hI⟩, hk⟩
+              refine ⟨a, c ++ s2, by simp, ha, ?_⟩
+              refine (iterK_iff m (GDen m g) (gmatch m g) ih _ _ _ k (Nat.le_refl _)).mpr
+                ⟨c, s2, rfl, hI, ?_⟩
+              rw [ctxAfter_append]; exact hk
+          · simp only [h4, if_false, List.any_eq_true, Prod.exists, Bool.and_eq_true,
+              Bool.not_eq_true', splits_mem]
+            have hfull : ∀ t, gmatch m g b t (fun _ r => r.isEmpty) = true ↔ GDen m g b t := by
+              intro t
+              rw [ih]
+              constructor
+              · rintro ⟨a, r, rfl, ha, hr⟩
+                have : r = [] := by simpa using hr
+                subst this; simpa using ha
+              · intro h; exact ⟨t, [], by simp, h, rfl⟩
+            constructor
+            · rintro ⟨a, r, rfl, ⟨⟨hok, hng⟩, hk⟩⟩
+              refine ⟨a, r, rfl, ⟨?_, ?_⟩, hk⟩
+              · unfold negOk
+                cases a with
+                | nil => simp
+                | cons y a' => simpa using hok
+              · intro hd
+                rw [← hfull] at hd
+                rw [hd] at hng; cases hng
+            · rintro ⟨a, r, rfl, ⟨hok, hng⟩, hk⟩
+              refine ⟨a, r, rfl, ⟨⟨?_, ?_⟩, hk⟩⟩
+              · unfold negOk at hok
+                cases a with
+                | nil => simp
+                | cons y a' => simpa using hok
+              · cases hg : gmatch m g b a (fun _ r => r.isEmpty) with
+                | false => rfl
+                | true => exact absurd ((hfull a).mp hg) hng
+
+/-- Whole-string matching. -/
+theorem gmatch_full_iff (m : Mode) (g : Glob) (b : Bool) (s : Str) :
+    gmatch m g b s (fun _ r => r.isEmpty) = true ↔ GDen m g b s := by
+  rw [gmatch_iff]
+  constructor
+  · rintro ⟨a, r, rfl, ha, hr⟩
+    have : r = [] := by simpa using hr
+    subst this; simpa using ha
+  · intro h; exact ⟨s, [], by simp, h, rfl⟩
 
 end ShVerif.L3
